@@ -306,14 +306,21 @@ def c044(ctx):
                         counter = True
             if 'seq' in names and ('expected_seq' in locs or counter):
                 seq_edges.append((bi, ts.get('0') if o[1]['op'] == 'Ne' else els))
-        if o[0] == 'call' and re.search(r'PartialEq(::|.*>::)(ne|eq)$', o[1].callee):
-            srcs = set()
-            for a in o[1].args:
-                for x in sources(tr, a):
-                    if x[0] == 'call':
-                        srcs.add(x[1].rsplit('::', 1)[-1])
-            if srcs & {'stream_kind', 'stream_id'}:
-                id_edges.append((bi, ts.get('0') if o[1].name == 'ne' else els, sorted(srcs & {'stream_kind', 'stream_id'})))
+    # identity comparisons: found from the comparison call, through a named boolean / a negation, to the switch it feeds
+    for c_ in tr.calls(r'PartialEq(::|.*>::)(ne|eq)$'):
+        srcs = set()
+        for a in c_.args:
+            for x in sources(tr, a):
+                if x[0] == 'call':
+                    srcs.add(x[1].rsplit('::', 1)[-1])
+        if not (srcs & {'stream_kind', 'stream_id'}):
+            continue
+        sw_ = tr.switch_on_call(c_)
+        if sw_ is None:
+            continue
+        bb_, ts_, els_, neg_ = sw_
+        true_t, false_t = (ts_.get('0'), els_) if neg_ else (els_, ts_.get('0'))
+        id_edges.append((bb_, true_t if c_.name == 'eq' else false_t, sorted(srcs & {'stream_kind', 'stream_id'})))
     for pu in pushes:
         ok = any(t is not None and tr.edge_dom(bi, t, pu.bb) for (bi, t) in seq_edges)
         ctx.ob('C04.4', tr, 'contiguity-checked', ok, 'a sidecar line is accepted %s' % ('only on the equal edge of event.seq vs expected_seq' if ok else 'WITHOUT the seq-contiguity comparison'), line=pu.line)
